@@ -64,8 +64,9 @@ def points(tier):
                                 for eng in ("numpy", "normal"):
                                     for pl in PLACEMENTS:
                                         pts.append([nv, hs, shape, wrap, text, pol, eng, pl])
-        return pts
-    for nv in QUICK_NULLS:
+        # (the thorough tier continues with the secondary families below: undeclared columns, literal NaN tokens,
+        # mnemonic_case, LAS 1.0 / 1.2 and NULL spellings, object reuse - it is a superset of the quick tier)
+    for nv in (QUICK_NULLS if tier == "quick" else []):
         for pol in ("strict", "none"):
             for eng in ("numpy", "normal"):
                 for pl in PLACEMENTS:
